@@ -61,7 +61,7 @@ package dig
 //@ scan[C03:no-direct-decorator-calls] calls (*dig.decoratorNode).Call <= none
 //@ scan[C17:invoker-write-sites] stores Scope.invokerFn <= (*dig.Scope).Scope, (dig.dryRunOption).applyOption, dig.newScope
 //@ scan[C17:invoker-read-sites] loads Scope.invokerFn <= (*dig.Scope).Invoke, (*dig.Scope).Scope, (*dig.Scope).invoker
-//@ scan[C17:values-are-looked-at-only-here,C01:values-are-looked-at-only-here] methodcalls reflect.Value <= (*dig.Scope).Invoke:Interface, (*dig.Scope).Invoke:Type, (dig.paramObject).Build:Elem, (dig.paramObject).Build:Field, (dig.paramObject).Build:Set, (dig.resultGrouped).Extract:Index, (dig.resultGrouped).Extract:Len, (dig.resultList).ExtractList:Interface, (dig.resultObject).Extract:Field, dig.defaultInvoker:Call, dig.dryInvoker:Type, dig.newConstructorNode:Pointer, dig.newConstructorNode:Type, dig.newDecoratorNode:Pointer, dig.newDecoratorNode:Type, digreflect.InspectFunc:Pointer
+//@ scan[C17:values-are-looked-at-only-here,C01:values-are-looked-at-only-here] methodcalls reflect.Value <= (*dig.Scope).Decorate:IsNil, (*dig.Scope).Invoke:Interface, (*dig.Scope).Invoke:IsNil, (*dig.Scope).Provide:IsNil, (*dig.Scope).Invoke:Type, (dig.paramObject).Build:Elem, (dig.paramObject).Build:Field, (dig.paramObject).Build:Set, (dig.resultGrouped).Extract:Index, (dig.resultGrouped).Extract:Len, (dig.resultList).ExtractList:Interface, (dig.resultObject).Extract:Field, dig.defaultInvoker:Call, dig.dryInvoker:Type, dig.newConstructorNode:Pointer, dig.newConstructorNode:Type, dig.newDecoratorNode:Pointer, dig.newDecoratorNode:Type, digreflect.InspectFunc:Pointer
 //@ scan[C13:recover-sites] builtin recover <= (*dig.Scope).Invoke$1, (*dig.constructorNode).Call$3, (*dig.decoratorNode).Call$3
 //@ scan[C13:cycle-error-construction-sites,C05:cycle-error-construction-sites] allocs dig.errCycleDetected <= (*dig.Scope).cycleDetectedError, (*dig.constructorNode).Call, (dig.errCycleDetected).Error, dig.IsCycleDetected
 //@ scan[C13:panic-error-construction-sites] allocs dig.PanicError <= (*dig.Scope).Invoke$1, (*dig.constructorNode).Call$3, (*dig.decoratorNode).Call$3, (dig.PanicError).Format
